@@ -225,6 +225,29 @@ def run_case(case, seed, st):
             trans += 1
             if np.abs(got - ref_d[k_]).max() > 1e-11 * scale:
                 return fail("direction-layout", "nac_q_direction given as a row of a %s array gives another D(Gamma)" % lname, None, aniso)
+    # the Born / dielectric arrays handed over in other memory layouts (transposed storage, Fortran order, slices of a table)
+    if case["born"] == "random" and case["factor"] == 14.399652:
+        b0, e0 = np.array(nac["born"]), np.array(nac["dielectric"])
+        tab = np.zeros((2 * nat, 3, 3))
+        tab[::2] = b0
+        tab[1::2] = 55.0
+        stor = np.ascontiguousarray(b0.transpose(1, 2, 0))  # data kept as (3,3,natom)
+        variants = {"fortran-order": (np.asfortranarray(b0), np.asfortranarray(e0)), "view-of-(3,3,natom)-storage": (stor.transpose(2, 0, 1), e0.T.copy().T),
+                    "every-other-row-of-a-table": (tab[::2], e0), "nested-lists": (b0.tolist(), e0.tolist())}
+        qtest = [np.zeros(3)] + list(gen)
+        ph.nac_params = dict(nac, born=b0.copy(), dielectric=e0.copy())
+        ph.run_qpoints(qtest, nac_q_direction=[0.3, -0.2, 0.5], with_dynamical_matrices=True)
+        Dref = np.array(ph.get_qpoints_dict()["dynamical_matrices"])
+        for vn, (bv, ev_) in variants.items():
+            assert np.array_equal(np.asarray(bv), b0) and np.array_equal(np.asarray(ev_), e0)
+            ph.nac_params = dict(nac, born=bv, dielectric=ev_)
+            ph.run_qpoints(qtest, nac_q_direction=[0.3, -0.2, 0.5], with_dynamical_matrices=True)
+            Dv = np.array(ph.get_qpoints_dict()["dynamical_matrices"])
+            trans += len(qtest)
+            e = np.abs(Dv - Dref).max() / scale
+            if e > 1e-11:
+                return fail("born-layout", "the same Born charges / dielectric tensor stored as %s give other dynamical matrices (by %.3g rel)" % (vn, e), float(e), aniso)
+        ph.nac_params = nac
     # without a direction the zone centre itself carries no correction
     e = np.abs(D1[0] - D0[0]).max() / scale
     if e > 1e-10:
